@@ -540,16 +540,28 @@ pub fn read_fld(db: &dyn QDb, t: TRef<'_>, w: u8) -> u8 {
         (TRef::A(t), 1) => {
             let v = t.f(db);
             assert!(v.intact(), "tracked field f storage corrupted");
+            crate::val::retain::note(v);
             v.x
         }
         (TRef::A(t), _) => {
             let v = t.g(db);
             assert!(v.intact(), "tracked field g storage corrupted");
+            crate::val::retain::note(v);
             v.x
         }
         (TRef::B(t), 0) => t.ident(db).0,
-        (TRef::B(t), 1) => t.f(db).x,
-        (TRef::B(t), _) => t.g(db).x,
+        (TRef::B(t), 1) => {
+            let v = t.f(db);
+            assert!(v.intact(), "tracked field f storage corrupted");
+            crate::val::retain::note(v);
+            v.x
+        }
+        (TRef::B(t), _) => {
+            let v = t.g(db);
+            assert!(v.intact(), "tracked field g storage corrupted");
+            crate::val::retain::note(v);
+            v.x
+        }
     };
     db.cx().rec(Rec::ReadFld { th: cur_thread(), id: t.id_bits(), w, val });
     val
@@ -571,6 +583,7 @@ pub fn call_on_ts(db: &dyn QDb, t: TRef<'_>, w: u8) -> u8 {
         (TRef::B(t), _) => on_tsc(db, t),
     };
     assert!(v.intact(), "memoized value storage corrupted");
+    crate::val::retain::note(v);
     cx.rec(Rec::CallEnd { th: cur_thread(), f, key, val: v.x });
     v.x
 }
@@ -601,6 +614,7 @@ pub fn call_node(db: &dyn QDb, n: u8) -> u8 {
 #[inline]
 fn chk(v: &V) -> u8 {
     assert!(v.intact(), "memoized value storage corrupted");
+    crate::val::retain::note(v);
     v.x
 }
 
